@@ -117,6 +117,9 @@ func readLine(reader *bufio.Reader) ([]byte, error) {
 	if !isPrefix {
 		return line, err
 	}
+	// ReadLine returns a slice of the reader's own buffer, which the next ReadLine
+	// overwrites: keep a copy of the first fragment before reading on
+	line = append([]byte(nil), line...)
 	for {
 		b, isPrefix, err := reader.ReadLine()
 		if err != nil {
